@@ -66,6 +66,10 @@ let () = serve (fun fn req ->
   | "find_close" ->
       let sender = match jfield_opt req "sender" with Some JNull | None -> None | Some j -> Some (jn j) in
       of_list of_peer (find_close !st_own !st.s_tab (jn (jfield req "key")) (jz (jfield req "count")) sender)
+  | "rpc_find_node" ->
+      of_list of_peer (rpc_find_node !st_own !st.s_tab (jn (jfield req "key")) (jn (jfield req "requester")))
+  | "rpc_find_value" ->
+      of_list of_peer (rpc_find_value_contacts !st_own !st.s_tab (jn (jfield req "key")) (jn (jfield req "requester")))
   | "get_peer" ->
       (match get_peer !st_own !st.s_tab (jn (jfield req "id")) with
        | None -> JStr "IndexError"
